@@ -132,6 +132,26 @@ pub fn exec(it: &mut Interp, toks: &[&str], out: &mut Vec<String>) -> bool {
             }
             true
         }
+        ["simpair", slot, nm, k, a, b] => {
+            // one pair of terms (ontologies too deep for the all-pairs listing)
+            let (Some(nm), Some(kind), Ok(a), Ok(b)) = (unname(nm), kind_of(k), a.parse::<u32>(), b.parse::<u32>()) else { return false };
+            let Some(o) = slot.parse::<u32>().ok().and_then(|s| it.slots.get(&s)) else {
+                out.push("noslot".to_string());
+                return true;
+            };
+            match (Builtins::new(&nm, kind), o.hpo(a), o.hpo(b)) {
+                (Ok(bi), Some(ta), Some(tb)) => {
+                    let s = bi.calculate(&ta, &tb);
+                    out.push(format!("SP {}", f32bits(s)));
+                    let s2 = ta.similarity_score(&tb, &bi);
+                    if s2.to_bits() != s.to_bits() {
+                        out.push(format!("oracle FAIL simpair dispatch {a},{b}: builtins {s} similarity_score {s2}").replace(": ", ":_"));
+                    }
+                }
+                _ => out.push("sim err".to_string()),
+            }
+            true
+        }
         ["sim", slot, nm, k] => {
             let (Some(nm), Some(kind)) = (unname(nm), kind_of(k)) else { return false };
             let Some(o) = slot.parse::<u32>().ok().and_then(|s| it.slots.get(&s)) else {
